@@ -404,6 +404,11 @@ func validateSecurityRequirement(ctx context.Context, input *RequestValidationIn
 	}
 	sort.Strings(names)
 
+	if len(names) == 0 {
+		// an empty security requirement is satisfied without any authentication
+		return nil
+	}
+
 	// Get authentication function
 	options := input.Options
 	if options == nil {
